@@ -84,12 +84,12 @@ def aliasing(got, A2, B2):
     return any(id(r) in ids for r in got['records'])
 
 
-def run_case(res, q, A, B=None, a_names=None, b_names=None, diagnose=None, check_header=True, text=None, kind='py'):
+def run_case(res, q, A, B=None, a_names=None, b_names=None, diagnose=None, check_header=True, text=None, kind='py', runner=None):
     """Execute and judge one case. Returns (exp, got, reason)."""
     text = text if text is not None else refql.render(q)
     exp = refql.evaluate(q, A, B, a_names, b_names)
     A2, B2 = copy_table(A), copy_table(B)
-    got = drive.run_py(text, A2, B2, a_names, b_names)
+    got = (runner or drive.run_py)(text, A2, B2, a_names, b_names)
     res.evaluations += 1
     res.traces += 1
     why = compare(exp, got, check_header)
